@@ -40,6 +40,7 @@ const (
 	fpReceiptStorageRlp  = "C14/receiptforstorage/rlp/implementation-fields-dropped"
 	fpFuzzShareCounter   = "C14/fuzz/partial-share-counter-not-redecodable"
 	fpFuzzHeaderlessBody = "C14/fuzz/headerless-body-not-reencodable"
+	fpFuzzQiBadPubKey    = "C14/fuzz/qi-invalid-uncompressed-pubkey-not-reencodable"
 )
 
 // ---- the input classes -------------------------------------------------------------------------
@@ -268,6 +269,23 @@ func TestC14_Regress_KnownFindings(t *testing.T) {
 			}
 			_, err = y.ProtoEncode(types.BlockObject)
 			return err != nil, fmt.Sprintf("block-view work object without body header decodes, re-encoding fails: %v", err), map[string]any{"proto": hx(b)}
+		}},
+		{fpFuzzQiBadPubKey, func() (bool, string, map[string]any) {
+			mk := func(denom uint32, h byte) []byte {
+				p, _ := regressQiTx(false).ProtoEncode()
+				p.TxIns.TxIns[0].PubKey = append([]byte{4}, make([]byte, 64)...) // 65 bytes, not a curve point
+				p.TxOuts.TxOuts[0].Denomination = &denom
+				p.TxIns.TxIns[0].PreviousOutPoint.Hash = common.Hash{1, 2, 3, h}.ProtoEncode()
+				return pbytes(p)
+			}
+			b1, b2 := mk(1, 9), mk(7, 200)
+			y1, err1 := decTxProto(b1)
+			y2, err2 := decTxProto(b2)
+			if err1 != nil || err2 != nil {
+				return false, "", nil
+			}
+			_, encErr := y1.ProtoEncode()
+			return encErr != nil, fmt.Sprintf("Qi tx with a 65-byte non-curve-point key decodes, re-encoding fails (%v); two such transactions differing in outpoint and denomination share the hash: %x / %x", encErr, y1.Hash(), y2.Hash()), map[string]any{"proto1": hx(b1), "proto2": hx(b2)}
 		}},
 	}
 	for _, r := range list {
